@@ -83,6 +83,26 @@ def oracle(scn, tr):
                 if np.asarray(Xo[i], dtype=float).tobytes() not in callset:
                     v.append(viol("d:log-row-never-evaluated", f"row {i} X_orig={Xo[i].tolist()} is not a recorded call argument"))
                     break
+        # (f) the internal points BADS can hand out next to a bound (the transformed bounds themselves, the mesh-rounded search
+        # bounds and the neighbouring mesh nodes) map back inside the hard box: same clause as (a), on points a run may reach
+        if True:
+            sm0 = float(b.optim_state.get("search_mesh_size", 2.0**-10))
+            cand = [tlb, tub]
+            for key in ("lb_search", "ub_search"):
+                if key in b.optim_state:
+                    cand.append(np.asarray(b.optim_state[key], dtype=float).ravel())
+            for base in (tlb, tub):
+                for k in (1, 2, 3):
+                    cand.append(np.clip(base + k * sm0, tlb, tub))
+                    cand.append(np.clip(base - k * sm0, tlb, tub))
+            P = np.array([np.where(np.isfinite(c), c, 0.0) for c in cand])
+            back = vt.inverse_transf(P.copy())
+            evals += len(P)
+            if not (np.all(back >= lb) and np.all(back <= ub)):
+                i = int(np.argmax(~np.all((back >= lb) & (back <= ub), axis=1)))
+                v.append(viol("f:in-box-internal-point-maps-outside", f"internal point {P[i].tolist()} (inside the transformed box) maps to "
+                              f"{back[i].tolist()} outside [{lb.tolist()}, {ub.tolist()}]"))
+        if n:
             sm = float(b.optim_state.get("search_mesh_size", 2.0**-10))
             fin = np.isfinite(tlb)
             if np.any(fin):
